@@ -185,12 +185,14 @@ CLAIMED.update({
           'never an exponent, no superfluous leading zeros (a JSON number) - whose digits denote exactly sign x coefficient x 10^exponent (value equation over the digit sequences, with the '
           'concatenation / leading-zero / trailing-zero lemmas proved by induction); no unwrap, subtraction or index in it can fail; the recursion on the sign terminates. '
           'Display::fmt and Jsonify::jsonify of FeelNumber hand exactly that text on; FromStr accepts a text iff the library reads a finite value from it and stores that value. '
+          'The two numeric arms of Lexer::read_next_token (lifted: R26) answer exactly the maximal run of digits written before the point and - only when a point AND a digit follow - the maximal run behind it (`.5`: 0 and the run); '
+          'build_numeric joins them by ONE point, hands that text to FromStr and answers the number read or null; try_from_xsd_integer / _decimal / _double read the whole input text. '
           'The C library side (what decQuadToString writes, what decQuadFromString reads) is assumed in the contract and looked at only by BOUNDED numbers-as-plain-text-differential, '
           'which also covers FEEL literals and typed input texts.',
   'design_ref': 'DESIGN.md section 5 (C07)',
   'note': 'Trusted: Verus/Z3; A-C (decQuadToString writes the IEEE 754-2008 to-scientific-string form; decQuadFromString / decQuadIsFinite uninterpreted); A-std (R24: the str APIs strip_prefix / contains / split / '
           'usize::from_str / len / chars().all / repeat-collect / format! / to_string mean what core documents, as stubs over the character sequence). Not decided: read-back and literal values (C library), '
-          'the lexer arms for numeric tokens, build_numeric.',
+          'that the parser hands the numeric token to build_numeric unchanged.',
   'technique': 'contract-based deductive verification: Verus requires/ensures/decreases on scientific_to_plain, Display::fmt, jsonify, from_str extracted mechanically from /repo with the str APIs replaced by specified stubs; '
                'bounded differential stand-in (labelled bounded) for the C library side',
  },
